@@ -74,8 +74,14 @@ def helper_body(o: Outcome) -> Optional[str]:
     return None
 
 
+def _strip_td_qualifiers(t):
+    while typing.get_origin(t) in (typing.Required, typing.NotRequired, getattr(typing, "ReadOnly", None)) and typing.get_origin(t) is not None:
+        t = typing.get_args(t)[0]
+    return t
+
+
 def ref_typeddict_body(td, kind: str) -> str:
-    anns = td.__annotations__
+    anns = {k: _strip_td_qualifiers(v) for k, v in td.__annotations__.items()}
     all_keys = list(anns)
     req = sorted(td.__required_keys__, key=all_keys.index)
     opt = sorted(td.__optional_keys__, key=all_keys.index)
